@@ -268,6 +268,9 @@ def process_units(ctx, acc, lines):
         why = ""
         if kr.get("rout") != ko["out"]:
             ok, why = False, "panic / no panic"
+            if kr.get("rout") == "panic" and ko.get("pre", "-") != "-" and unit_site(func, pmsg) == ko["pre"]:
+                why = (f"panic / no panic: the real code panicked at the REPAIRED site {ko['pre']}; the pre-fix Lean mirror "
+                       f"predicts it on this shape, the current-code mirror (proved total) does not")
         elif kr.get("rout") == "panic":
             m = unit_site(func, pmsg)
             if m != ko["site"]:
@@ -370,14 +373,16 @@ def run(ctx):
 
     acc = Acc()
     focus = deref_inventory(ctx, acc)
-    process_units(ctx, acc, ctx.harness(["-unit", "-seed", ctx.seed, "-n", 1500 if ctx.tier == "quick" else 20000]) or [])
-    lap("deref+units")
+    lap("deref")
     cdir = os.path.join(os.path.dirname(os.path.dirname(os.path.abspath(__file__))), "corpus", "C05")
     corpus = sorted(os.path.join(cdir, f) for f in os.listdir(cdir)) if os.path.isdir(cdir) else []
     if corpus:
         process(ctx, acc, ctx.harness(["-replay", ",".join(corpus)]) or [])
     corpus_steps = acc.steps
     lap("corpus")
+    # unit streams after the corpus, so that a regression of a repaired site is first reported with its corpus replay
+    process_units(ctx, acc, ctx.harness(["-unit", "-seed", ctx.seed, "-n", 1500 if ctx.tier == "quick" else 20000]) or [])
+    lap("units")
     # exhaustive small scope: all 120 delivery orders of the selector scenario x batchings x route kinds
     process(ctx, acc, ctx.harness(["-perms"]) or [])
     perm_steps = acc.steps - corpus_steps
